@@ -88,6 +88,7 @@ def _get_source(target, cls, fields, label):
 
 
 _get_source(PKG + ".get_source", PKG, lambda c: dict(paths="BASES", ext=c.str("ext"), encoding=c.str("encoding")), "PackageLoader.get_source")
+_get_source(PKG + ".get_source_async", PKG, lambda c: dict(paths="BASES", ext=c.str("ext"), encoding=c.str("encoding")), "PackageLoader.get_source_async")
 
 not_covered("C22", "the file system itself (symlink resolution is opaque; races between exists() and open())", "more than two search paths (the loop is uniform)",
             "FileSystemLoader._read/get_source read exactly resolve_path(name) (structural: the only path they open is the one returned by resolve_path)",
